@@ -608,6 +608,7 @@ def second_phase(cases, real, souts):
     return souts
 
 
+WRITER_OBS = []          # (case, real result) of make_definitions / encode_dict, for the writer2coq correspondence
 DISPATCH_TAB = None      # decision tables of the regenerated dispatch (harness/codec_dispatch.py), set by the check
 
 
@@ -646,6 +647,8 @@ def judge(ctx, pid, c, r, mo, so, guard, sanitize, verbose=False, memory_only=Fa
     fn = c["fn"]
     if hasattr(ctx, "gen_dir"):
         dispatch_correspondence(ctx, c, r)
+        if fn in ("make_definitions", "encode_dict") and r[0] == "ok" and len(c["vals"]) <= 70:
+            WRITER_OBS.append((c, r))
     if r[0] == "skipped":
         ctx.count("not run (the worker had already crashed too often)", fn)
         return False
